@@ -113,6 +113,15 @@ def regenerate():
                          f"(* translator failed: {status['T-initvars']} *)\n"
                          "Definition translator_failed : False := I.\n")
     try:
+        from translator import validity as T10
+        write_if_changed(os.path.join(GEN, "ValidGen.v"), T10.translate(REPO))
+        status["T-validity"] = None
+    except Exception as e:
+        status["T-validity"] = f"{type(e).__name__}: {e}"
+        write_if_changed(os.path.join(GEN, "ValidGen.v"),
+                         f"(* translator failed: {status['T-validity']} *)\n"
+                         "Definition translator_failed : False := I.\n")
+    try:
         from translator import tables as T34
         text = T34.translate(REPO)
         write_if_changed(os.path.join(GEN, "Tables.v"), text)
